@@ -32,6 +32,7 @@ type pathCase struct {
 	This  bool              `json:"this,omitempty"`  // path starts with `this`
 	Root  string            `json:"root"`            // first name
 	Steps []pathStep        `json:"steps,omitempty"` // member accesses
+	Bang  bool              `json:"bang,omitempty"`  // with This: written this!.root
 	Used  bool              `json:"used,omitempty"`  // the runner served another caller's data (same keys, other values, locals, auxiliary entries) before
 }
 
@@ -39,6 +40,9 @@ func (c pathCase) text() string {
 	s := c.Root
 	if c.This {
 		s = "this." + c.Root
+		if c.Bang && !c.NoMap {
+			s = "this!." + c.Root // the data map is never null, however few entries it has
+		}
 	}
 	for _, st := range c.Steps {
 		if st.Assert {
@@ -454,6 +458,10 @@ func TestC16Random(t *testing.T) {
 		c.NoMap = rapid.IntRange(0, 19).Draw(rt, "nomap") == 0
 		c.Used = rapid.IntRange(0, 2).Draw(rt, "used") == 0
 		c.This = rapid.IntRange(0, 4).Draw(rt, "this") == 0
+		c.Bang = rapid.Bool().Draw(rt, "bang")
+		if rapid.IntRange(0, 9).Draw(rt, "emptydata") == 0 {
+			c.Data = map[string]spec.V{} // an empty (non-nil) data map
+		}
 		// walk down, preferring present keys
 		keys := spec.Keys(c.Data)
 		if len(keys) > 0 && rapid.IntRange(0, 4).Draw(rt, "present") > 0 {
@@ -557,6 +565,7 @@ func TestC16Grid(t *testing.T) {
 		if !h.Mine(idx) || run.NViolations() >= 3 {
 			return
 		}
+		c.Bang = (idx/3)%2 == 1
 		c.Used = (idx/7)%2 == 1 // every other block of cases on a runner that served other data before
 		msg, cls := checkPath(c)
 		if cls == "unspecified" {
@@ -575,6 +584,8 @@ func TestC16Grid(t *testing.T) {
 		for _, root := range keys {
 			try(pathCase{Data: data, This: this, Root: root})
 			try(pathCase{NoMap: true, This: this, Root: root})
+			try(pathCase{Data: map[string]spec.V{}, This: this, Root: root})                                               // an empty, non-nil data map
+			try(pathCase{Data: map[string]spec.V{}, This: this, Root: root, Steps: []pathStep{{Key: "a", Assert: false}}}) // ... and a step further
 			for _, k1 := range keys {
 				for _, a1 := range []bool{false, true} {
 					try(pathCase{Data: data, This: this, Root: root, Steps: []pathStep{{k1, a1}}})
